@@ -117,3 +117,31 @@ def inverse_env(a):
         if tuple(r) != (0, 0, 0):
             msgs.append('coincident points return %r' % (r,))
     return bool(msgs), '; '.join(msgs[:3]) if msgs else 'inverse solutions close on the exact geodesic, symmetric and shift invariant'
+
+
+def argforms(a):
+    """vincdir with some arguments as angle objects of one class and the others plain numbers = vincdir on the decimal values"""
+    import itertools
+    import geodepy.angles as A
+    from geodepy.geodesy import vincdir
+    msgs = []
+    classes = [a['cls']] if a.get('cls') else ['HPAngle', 'GONAngle', 'DMSAngle', 'DDMAngle', 'DECAngle']
+    subsets = [tuple(a['positions'])] if a.get('positions') else [s_ for n in (1, 2, 3) for s_ in itertools.combinations((0, 1, 2), n)]
+    mk = {'DECAngle': A.DECAngle, 'HPAngle': lambda v: A.HPAngle(A.dec2hp(v)), 'GONAngle': lambda v: A.GONAngle(A.dec2gon(v)), 'DMSAngle': A.dec2dms,
+          'DDMAngle': A.dec2ddm}
+    for cls in classes:
+        for sub in subsets:
+            for vals, s in (((-37.5703720, 144.2529245, 306.5205373), 54972.271), ((10.25, 20.5, 45.125), 2500000.0), ((-0.5, -170.75, 200.0), 1000.0)):
+                args = list(vals)
+                for k in sub:
+                    args[k] = mk[cls](vals[k])
+                decs = [x.dec() if hasattr(x, 'dec') else x for x in args]
+                try:
+                    got = vincdir(args[0], args[1], args[2], s)
+                except Exception as ex:  # noqa
+                    msgs.append('vincdir with positions %s as %s raised %s: %s' % (list(sub), cls, type(ex).__name__, ex))
+                    continue
+                exp = vincdir(decs[0], decs[1], decs[2], s)
+                if max(abs(g - e) for g, e in zip(got, exp)) > 1e-10:
+                    msgs.append('vincdir with positions %s as %s = %r, with the decimal-degree values %r' % (list(sub), cls, got, exp))
+    return bool(msgs), '; '.join(msgs[:3]) if msgs else 'angle-class arguments give the result of their decimal values'
